@@ -37,6 +37,10 @@ const SigProbeBindRace = "C16-second-start-between-probe-and-listen"
 type Case struct {
 	K     int   `json:"k,omitempty"` // hold point (0: drawn / all)
 	Retry bool  `json:"retry,omitempty"`
+	// FailAccept: the first accept(2) of the first run's status socket fails once
+	// with EMFILE (a transient fault); the socket must stay in place — it is the lock
+	FailAccept bool `json:"failAccept,omitempty"`
+	failAt     int
 	Picks []int `json:"picks,omitempty"`
 }
 
@@ -113,6 +117,9 @@ func (w *world) supervise(c *Case, k int, wantLog bool) (*crashkit.Result, *repo
 		mode = "retry"
 	}
 	o := crashkit.Opts{Classes: "fsp", Prefixes: []string{w.h.Dir}, WantLog: wantLog, Env: cliEnv(w.h), Dir: w.h.Dir, Timeout: 90 * time.Second}
+	if c.failAt > 0 {
+		o.FailAt, o.FailErrno = c.failAt, 24
+	}
 	if k > 0 {
 		o.HoldAt = k
 		o.HoldCmd = strings.Join([]string{os.Getenv("VERIF_TOOL_SECOND"), report, w.h.Data, w.marker, w.file, bin, mode, w.priorID}, " ")
@@ -154,6 +161,15 @@ func check(t rep.Fataler, c Case) {
 		return
 	}
 	K := dry.Counted
+	listenIdx := 0
+	for _, cl := range dry.Calls {
+		if cl.Name == "listen" && listenIdx == 0 {
+			listenIdx = cl.N
+		}
+		if c.FailAccept && cl.Name == "accept" && c.failAt == 0 {
+			c.failAt = cl.N
+		}
+	}
 	var ks []int
 	switch {
 	case c.K > 0:
@@ -172,7 +188,7 @@ func check(t rep.Fataler, c Case) {
 		}
 	}
 	for _, k := range ks {
-		if k > K {
+		if k > K || (c.FailAccept && k <= c.failAt) {
 			continue
 		}
 		call := dry.Calls[k-1]
@@ -266,6 +282,11 @@ func check(t rep.Fataler, c Case) {
 				if secondRan && finalLines > linesPerRun {
 					fail("both starts executed the steps (%d marker lines): the second %s ran while the first was executing its steps (endpoint: %s)", finalLines, mode(c), rp.Before.SocketErr)
 				}
+			} else if firstActive && listenIdx > 0 && k > listenIdx+1 {
+				// the first run has been listening (the hold is past its listen call) and has not
+				// executed a step yet, but its socket is not there any more: the lock is gone
+				phase = "socket-lost-while-active"
+				fail("the first run's status socket does not answer (%s) although the run has been listening and is in progress; second %s exit %d, %d marker lines", rp.Before.SocketErr, mode(c), rp.SecondExit, finalLines)
 			} else if firstActive {
 				// the window between the first's probe and its listen
 				if secondRan && finalLines > linesPerRun {
@@ -285,7 +306,11 @@ func check(t rep.Fataler, c Case) {
 			}
 			_ = secondLines
 			key := rep.Hash(map[string]any{"k": k, "retry": c.Retry})
-			rep.Eval(key, "phase:"+phase, "syscall:"+call.Name, fmt.Sprintf("second-exit:%d", min(rp.SecondExit, 1)))
+			faultLabel := "accept-fault:none"
+			if c.FailAccept {
+				faultLabel = "accept-fault:EMFILE-once"
+			}
+			rep.Eval(key, "phase:"+phase, "syscall:"+call.Name, fmt.Sprintf("second-exit:%d", min(rp.SecondExit, 1)), faultLabel)
 			if rep.WantSample() {
 				rep.Sample(map[string]any{"heldAt": what, "phase": phase, "secondExit": rp.SecondExit, "finalMarkerLines": finalLines, "runsRecorded": len(runs)})
 			}
@@ -314,7 +339,7 @@ func TestProp(t *testing.T) {
 		}
 	}
 	rapid.Check(t, func(t *rapid.T) {
-		c := Case{Retry: rapid.IntRange(0, 2).Draw(t, "retry") == 0}
+		c := Case{Retry: rapid.IntRange(0, 2).Draw(t, "retry") == 0, FailAccept: rapid.IntRange(0, 3).Draw(t, "failAccept") == 0}
 		for i := 0; i < 2; i++ {
 			c.Picks = append(c.Picks, rapid.IntRange(0, 99999).Draw(t, "pick"))
 		}
@@ -325,15 +350,19 @@ func TestProp(t *testing.T) {
 // TestKnown is the dedicated probe of the open finding: every hold point of
 // the start-up phase (the first 40 counted calls).
 func TestKnown(t *testing.T) {
-	if !rep.Known(SigProbeBindRace) {
-		t.Skip("finding not open")
-	}
 	shard, nsh := rep.EnvInt("VERIF_SHARD", 0), rep.EnvInt("VERIF_NSHARDS", 1)
 	for k := 1; k <= 32; k++ {
 		if k%nsh != shard {
 			continue
 		}
 		check(t, Case{K: k})
+	}
+	// and a few holds past the listen() with a transient accept(2) failure injected
+	for i, k := range []int{18, 22, 26, 30, 34, 40, 46, 52} {
+		if i%nsh != shard {
+			continue
+		}
+		check(t, Case{K: k, FailAccept: true, Retry: i%2 == 1})
 	}
 }
 
